@@ -27,7 +27,9 @@ var externModels = map[string]externFn{}
 
 func init() {
 	// formatting for panic messages: pure, result irrelevant
-	for _, n := range []string{"fmt.Sprintf", "fmt.Sprint", "fmt.Sprintln", "fmt.Errorf"} {
+	// (and diagnostic output: printing / logging does not touch the program state the contracts speak about)
+	for _, n := range []string{"fmt.Sprintf", "fmt.Sprint", "fmt.Sprintln", "fmt.Errorf", "fmt.Println", "fmt.Printf", "fmt.Print",
+		"log.Println", "log.Printf", "log.Print"} {
 		externModels[n] = func(e *Engine, st *State, fr *Frame, callee *ssa.Function, args []Val, rt types.Type, pos string, k callCont) {
 			k(st, fr, e.freshVal("fmt", rt))
 		}
